@@ -21,7 +21,7 @@ type C03Job struct {
 	Cfg      rig.Config `json:"cfg"`
 	Contents []string   `json:"contents"`
 	Patterns []int      `json:"patterns,omitempty"` // write patterns (0 single Write, 1 Write+Sync+Write, 2 WriteString x2, 3 WriteAt back-fill); default {0}
-	Codec    bool       `json:"codec,omitempty"` // component level: non-regular codec parameters + tape writer padding
+	Codec    bool       `json:"codec,omitempty"`    // component level: non-regular codec parameters + tape writer padding
 }
 
 type C03Res struct {
@@ -102,6 +102,17 @@ func RunC03(env *Env, job *C03Job) *C03Res {
 				continue
 			}
 			written[i] = data
+			if i%2 == 1 {
+				// a metadata-only record behind the content record must not change the size or the bytes read back
+				ph.Name = "chmod " + spec
+				err, pan := Guard(func() error { return ops.ExecImpl(st, ops.Op{K: "chmod", P: p, N: 0o640}) })
+				vsync.Quiesce()
+				if pan != "" {
+					viol(fmt.Sprintf("C03|chmod-panic|%s|len=%s", pipe, lc), fmt.Sprintf("config %s, content %s: Chmod after the write: %s", cfg, spec, pan))
+				} else if err != nil {
+					viol(fmt.Sprintf("C03|chmod-error|%s|len=%s|%s", pipe, lc, NormErr(err)), fmt.Sprintf("config %s, content %s: Chmod after the write failed: %v", cfg, spec, err))
+				}
+			}
 		}
 		// observations on a reopened instance (fresh process view)
 		ph.Name = "reopen"
